@@ -496,9 +496,9 @@ def build():
                     vk = "u8"
                 if form == "sh" and not KINDS[vk].sh_ok:
                     vk = "i16"
+            if not t.items and not first_ok(t, {"nk": nk}):
+                form, nk = "kv", "path"
             it = mk_item(t, form, nk, s, vk, u)
-            if not t.items and not first_ok(t, it):
-                it = mk_item(t, "kv", "path", s, vk, u)
             t.items.append(it)
 
     for q in range(130):
